@@ -12,7 +12,7 @@ DF = 'streamz/dataframe/core.py'
 
 class PeriodicSeg(Segment):
     file = DF
-    files = [DF, 'streamz/core.py']
+    files = [DF, 'streamz/core.py', 'streamz/sources.py']
     cls = 'PeriodicDataFrame'
     harness = None
     props = ['C18']
@@ -89,3 +89,68 @@ class RandomStart(PeriodicStart):
 
 
 ALL = [PeriodicStop, PeriodicStart, RandomStop, RandomStart]
+
+
+class PeriodicLoop(PeriodicSeg):
+    """`PeriodicDataFrame._cb(interval, source, continue_)`, the polling coroutine (a staticmethod: the flag cell it was started
+    with is its only view of start/stop): segment 0 = entry to the first sleep, 1 = after the sleep to the awaited emission,
+    2 = after the emission to the next sleep or the end."""
+    method = '_cb'
+    start = 0
+    props = ['C18', 'C03']
+
+    def make_locals(self, I, selfv):
+        cell = I.st.heap[selfv.loc].fields['continue_']
+        loc = {'interval': VReal(z3.Real('interval_arg')), 'source': I.st.new_obj('Source', self.base_fields()), 'continue_': cell}
+        if self.start >= 1:
+            loc['last'] = VElem(z3.Const('last', sym.Elem))
+        if self.start >= 2:
+            loc['now'] = VElem(z3.Const('now', sym.Elem))
+        I.st.ghost['stamps'] = VInt(0)
+        return loc
+
+    def globals(self):
+        d = PeriodicSeg.globals(self)
+        d['pd'] = VBuiltin('pd')
+        return d
+
+    def spec_funcs(self):
+        d = PeriodicSeg.spec_funcs(self)
+
+        def now(I, args, kwargs, fr):
+            I.st.ghost['stamps'] = VInt(I.st.ghost['stamps'].t + 1)
+            return VElem(z3.Const(sym.fresh_name('timestamp'), sym.Elem))
+        d['builtin_pd.Timestamp.now'] = now
+
+        def dict_(I, args, kwargs, fr):
+            # dict(last=..., now=...): the element handed to the source, an opaque record of its two fields
+            return VElem(sym.user_func('record:' + ','.join(sorted(kwargs)), len(kwargs))(*[I.as_elem(kwargs[k]) for k in sorted(kwargs)]))
+        d['builtin_dict'] = dict_
+
+        def gather(I, args, kwargs, fr):
+            I.st.ghost['gathered'] = VTuple([a[1] if isinstance(a, tuple) else a for a in args])
+            return sym.VAw(z3.Const(sym.fresh_name('gather'), sym.Aw))
+        d['builtin_asyncio.gather'] = gather
+        return d
+
+    def clauses(self):
+        if self.start == 1:
+            return [Clause('C18.one_emission_per_cycle_awaited_before_the_next', ['C18', 'C03'], when='yield:2',
+                           text='len(emitted) == 1 and len(gathered) == 1 and gathered[0] == emit_rets[0] and len(sleeps) == 0',
+                           note='the cycle in progress may finish after stop(); its emission is awaited before anything else happens')]
+        return [Clause('C18.a_new_cycle_begins_only_while_the_flag_cell_is_set', ['C18'], when='yield:1',
+                       text='continue_[0] and len(sleeps) == 1 and sleeps[0] == interval and emitted == []',
+                       note='P2: after stop() (cell cleared) no further sleep / poll is started'),
+                Clause('C18.the_loop_ends_once_its_flag_cell_is_cleared', ['C18'], when='return',
+                       text='not continue_[0] and emitted == [] and len(sleeps) == 0')]
+
+
+class PeriodicLoopAfterSleep(PeriodicLoop):
+    start = 1
+
+
+class PeriodicLoopAfterEmission(PeriodicLoop):
+    start = 2
+
+
+ALL += [PeriodicLoop, PeriodicLoopAfterSleep, PeriodicLoopAfterEmission]
